@@ -24,7 +24,7 @@ ASSUMPTIONS = ['master-equation expectation computed with scipy expm on the 3^N 
 BUDGET = {'quick': 170, 'thorough': 1700}
 CHUNK = {'quick': 4, 'thorough': 10}
 CASE_TIMEOUT = 400
-REQUIRED = ['trees_compared', 'tree_node_curves_compared', 'final_sizes_compared', 'recurrences_checked', 'tau0_models_checked', 'gamma0_pairs_compared']
+REQUIRED = ['trees_compared', 'tree_node_curves_compared', 'final_sizes_compared', 'final_size_form_sets', 'final_size_form_direct', 'final_size_with_initially_recovered', 'recurrences_checked', 'tau0_models_checked', 'gamma0_pairs_compared']
 
 SIS_SIR_PAIRS = [('SIS_homogeneous_meanfield_from_graph', 'SIR_homogeneous_meanfield_from_graph'), ('SIS_homogeneous_pairwise_from_graph', 'SIR_homogeneous_pairwise_from_graph'),
                  ('SIS_heterogeneous_meanfield_from_graph', 'SIR_heterogeneous_meanfield_from_graph'), ('SIS_heterogeneous_pairwise_from_graph', 'SIR_heterogeneous_pairwise_from_graph'),
@@ -173,27 +173,61 @@ def run_tree(case, res):
 
 def run_final(case, res, discrete):
     import EoN
+    from vf.oracles import ic_counts
     G, lab = gen.build_graph(case['graph'])
     N = float(G.order())
+    n = G.order()
     Pk = odereg.EoN_get_Pk(G)
     rho = case['rho']
+    # three ways of stating the initial condition: rho | explicit node sets through the *_from_graph wrapper | the same sets
+    # condensed by the harness into (Sk0, phiS0, phiR0) and given to the degree-distribution form
+    rc = random.Random(case['seed'] + 11)
+    form = ('rho', 'sets', 'direct')[case.get('model_idx', 0) % 3]
+    I0 = R0 = ()
+    if form != 'rho':
+        I0i = rc.sample(range(n), rc.randint(1, 3))
+        rest = [i for i in range(n) if i not in I0i]
+        R0i = rc.sample(rest, rc.randint(0, min(4, len(rest) - 2)))
+        I0, R0 = [lab(i) for i in I0i], [lab(i) for i in R0i]
+        ic = ic_counts.from_sets(G, I0, R0)
+        # domain: some susceptible node has an infected neighbour (phi_I > 0); otherwise the dynamics sit on the disease-free
+        # equilibrium while Attack_rate_* reports the size 'if an epidemic occurs' (the other root of the same equation)
+        if not any(ic['status'][u] == 'S' and any(ic['status'][v] == 'I' for v in G.neighbors(u)) for u in G):
+            form = 'rho'
+        else:
+            Sk0 = {k: (ic['Sk'][k] / ic['Nk'][k]) for k in Pk}
+            rho = (len(I0) + len(R0)) / N          # only used for the non-triviality threshold below
+    ickw = {'rho': case['rho']} if form == 'rho' else {'initial_infecteds': list(I0), 'initial_recovereds': list(R0)}
     try:
         if discrete:
             p = case['p']
-            a100 = EoN.Attack_rate_discrete(Pk, p, rho=rho)
-            a2000 = EoN.Attack_rate_discrete(Pk, p, rho=rho, number_its=2000)
-            t, S, I, R = EoN.EBCM_discrete_from_graph(G, p, rho=rho, tmax=400)
+            if form == 'rho':
+                ar = lambda **k: EoN.Attack_rate_discrete(Pk, p, rho=case['rho'], **k)
+            elif form == 'sets':
+                ar = lambda **k: EoN.Attack_rate_discrete_from_graph(G, p, initial_infecteds=list(I0), initial_recovereds=list(R0), **k)
+            else:
+                ar = lambda **k: EoN.Attack_rate_discrete(Pk, p, Sk0=dict(Sk0), phiS0=ic['phiS'], phiR0=ic['phiR'], **k)
+            a100, a2000 = ar(), ar(number_its=2000)
+            t, S, I, R = EoN.EBCM_discrete_from_graph(G, p, tmax=400, **ickw)
         else:
             tau, gamma = case['tau'], case['gamma']
-            a100 = EoN.Attack_rate_cts_time(Pk, tau, gamma, rho=rho)
-            a2000 = EoN.Attack_rate_cts_time(Pk, tau, gamma, rho=rho, number_its=2000)
-            (t, S, I, R), bad = _quiet(EoN.EBCM_from_graph, G, tau, gamma, rho=rho, tmax=60.0 / gamma + 200.0, tcount=41)
+            if form == 'rho':
+                ar = lambda **k: EoN.Attack_rate_cts_time(Pk, tau, gamma, rho=case['rho'], **k)
+            elif form == 'sets':
+                ar = lambda **k: EoN.Attack_rate_cts_time_from_graph(G, tau, gamma, initial_infecteds=list(I0), initial_recovereds=list(R0), **k)
+            else:
+                ar = lambda **k: EoN.Attack_rate_cts_time(Pk, tau, gamma, Sk0=dict(Sk0), phiS0=ic['phiS'], phiR0=ic['phiR'], **k)
+            a100, a2000 = ar(), ar(number_its=2000)
+            (t, S, I, R), bad = _quiet(EoN.EBCM_from_graph, G, tau, gamma, tmax=60.0 / gamma + 200.0, tcount=41, **ickw)
             if bad:
                 bump(res, 'discarded_numerical_warnings')
                 return
     except Exception as e:
-        viol(res, 'final_size|%s|exception:%s' % ('discrete' if discrete else 'cts', simcase.exc_key(e)), {'err': repr(e)[:200]})
+        viol(res, 'final_size|%s|%s|exception:%s' % ('discrete' if discrete else 'cts', form, simcase.exc_key(e)), {'err': repr(e)[:200]})
         return
+    bump(res, 'final_size_form_' + form)
+    if R0:
+        bump(res, 'final_size_with_initially_recovered')
     if abs(a100 - a2000) > 1e-9:
         bump(res, 'final_size_skipped_not_converged')
         return
@@ -205,7 +239,7 @@ def run_final(case, res, discrete):
     bump(res, 'final_sizes_compared')
     setmax(res, 'max_final_size_error', abs(a100 - lim))
     if abs(a100 - lim) > 1e-6:
-        viol(res, 'Attack_rate_%s|equals_limit_of_dynamics' % ('discrete' if discrete else 'cts_time'), {'attack_rate': float(a100), 'dynamic_limit_1-S/N': float(lim), 'R_end/N': float(R[-1] / N),
+        viol(res, 'Attack_rate_%s|%s|equals_limit_of_dynamics' % ('discrete' if discrete else 'cts_time', form), {'I0': repr(I0), 'R0': repr(R0), 'attack_rate': float(a100), 'dynamic_limit_1-S/N': float(lim), 'R_end/N': float(R[-1] / N),
                                                                                                        'rho': rho, 'graph': case['graph'], 'tau': case['tau'], 'gamma': case['gamma'], 'p': case['p']})
     if lim > rho + 1e-3:
         res['nontrivial'] = 'final:%s:%s:%s' % (discrete, gen.iso_key(case['graph']), rho)
